@@ -364,11 +364,12 @@ def hostFoundOuts (s : State) (c : Cache) (changes : List (Nat × BList)) : List
     | none => []
     | some chan => (addressesForHost c ch.2).map fun p => .event chan (.hfound p.1 p.2)
 
-/-- `get_instances_on_host(host)`: instances whose FIRST SRV names exactly `host` -/
+/-- `get_instances_on_host(host)`: instances whose FIRST SRV names `host`, in any letter case
+    (`eq_ignore_ascii_case`, repair of the case-sensitive address trigger) -/
 def instancesOnHost (c : Cache) (host : BList) : List BList :=
   c.srv.filterMap fun p =>
     match p.2.head? with
-    | some e => if hostOf e == some host then some p.1 else none
+    | some e => if (hostOf e).map lower == some (lower host) then some p.1 else none
     | none => none
 
 /-- the instances a list of changes touches -/
